@@ -267,6 +267,10 @@ def run(P, R, L):
     own1_current_path(P, R, L)
     ord5_manifest_before_current(P, R, L)
     grd1_replay(P, R, L)
+    R.clause("TS-1", "recovery reads the WAL through LogReader::read_record: a crash between two fragments of a record must not make "
+             "later records unreadable or invent records (reassembly typestate); a torn tail is end-of-log (GRD-6)")
+    K.ts1(P, R, L)
+    K.grd6(P, R, L)
     R.not_decided += ["partial-write behaviour of the filesystem", "what recovery computes from a given on-disk image",
                       "batch atomicity at byte level (the reassembly clause is C12/TS-1)"]
     R.assumptions += ["FileSystem::rename is atomic; create_file(append=false) truncates",
